@@ -234,6 +234,11 @@ def run(prog, rep):
     loops = [n for n in walk_no_nested(dfs.node) if isinstance(n, ast.For)]
     rep.check(len(loops) == 1 and unparse(loops[0].iter) == "range(index, len(attrs))", "DFS-1", "DFS loop range", "range(index, len(attrs))",
               "the DFS loop iterates %s" % [unparse(n.iter) for n in loops], dfs.where)
+    early = [y for lp0 in loops for y in ast.walk(lp0) if isinstance(y, (ast.Break, ast.Return))]
+    rep.check(not early, "DFS-1", "the DFS loop tries every remaining pair", "no break / return in the loop",
+              "the DFS loop stops early (%s): combinations that continue with a later pair are never generated"
+              % [type(y).__name__.lower() for y in early], where(dfs, early[0]) if early else dfs.where,
+              witness="FIND sec(name, type) HAVING stim, stimulus: the combination name=stim & type=stimulus is not searched")
     rep.check("if path:" in unparse(dfs.node) and "res.append(path)" in unparse(dfs.node), "DFS-1", "every non-empty path is recorded", "ok",
               "non-empty combinations are not all recorded", dfs.where)
     cd = ff.lookup_method("_check_duplicate_attrs")
